@@ -179,7 +179,10 @@ impl TransitivityProof {
 // The numbers follow the binders alone (order of their first occurrence in the node without the arguments of its
 // children): two e-nodes that differ only in their children number their bound slots alike.
 pub(crate) fn alpha_normalize<L: Language>(n: &L) -> L {
-    let n = n.refresh_private();
+    // Every binder gets its own name first.  The weak shape numbers slots by *scoped* occurrence, so a binder that
+    // shadows another one of the same name (`lam2 $x $x ..`) is told apart from it; renaming by name alone is not.
+    let (sh, bij) = n.weak_shape();
+    let n = sh.refresh_private().apply_slotmap(&bij);
     let prv: SmallHashSet<Slot> = n.private_slot_occurrences().into_iter().collect();
     let mut m = SlotMap::new();
     for s in nullify_app_ids(&n).all_slot_occurrences() {
